@@ -637,9 +637,9 @@ FIRST_SEL = {'next', 'first', 'first_key_value'}
 LAST_SEL = {'next_back', 'last', 'last_key_value'}
 ACC_SPEC = [
     # (type, method, kind, field)
-    (GLIST, 'len', 'len', 'list'), (GLIST, 'is_empty', 'is_empty', 'list'), (GLIST, 'iter', 'walk', 'list'), (GLIST, 'get', 'nth', 'list'),
+    (GLIST, 'len', 'len', 'list'), (GLIST, 'is_empty', 'is_empty', 'list'), (GLIST, 'iter', 'walk', 'list'),
     (GLIST, 'first', 'first', 'list'), (GLIST, 'last', 'last', 'list'),
-    (LIST, 'len', 'len', 'seq'), (LIST, 'is_empty', 'is_empty', 'seq'), (LIST, 'get', 'lookup', 'seq'), (LIST, 'position', 'nth', 'seq'),
+    (LIST, 'len', 'len', 'seq'), (LIST, 'is_empty', 'is_empty', 'seq'), (LIST, 'get', 'lookup', 'seq'),
     (LIST, 'first', 'first', 'seq'), (LIST, 'first_entry', 'first', 'seq'), (LIST, 'last', 'last', 'seq'), (LIST, 'last_entry', 'last', 'seq'),
     (MERKLE, 'num_nodes', 'len', 'dag'), (MERKLE, 'num_orphans', 'len', 'orphans'), (MERKLE, 'all_nodes', 'walk', 'dag'),
     ('crdts::merkle_reg::Content', 'is_empty', 'is_empty', 'nodes'), ('crdts::merkle_reg::Content', 'values', 'walk', 'nodes'),
@@ -651,7 +651,7 @@ ACC_SPEC = [
 NEW_EMPTY = [ORSWOT, MAP, MVREG, LIST, GLIST, MERKLE, VCLOCK, GCOUNTER, PNCOUNTER, GSET]
 
 
-@rule('ACC-PLAIN', floor=37, **read_attribution({}, module=None))   # what a replica shows: served per type through READ_OBSERVES
+@rule('ACC-PLAIN', floor=35, **read_attribution({}, module=None))   # what a replica shows: served per type through READ_OBSERVES
 def acc_plain(ctx):
     """Plain read accessors delegate to the container field they describe: len / is_empty of that field, a walk over all of it,
     its first / last element, the n-th element of the walk, the lookup of the given key."""
